@@ -74,6 +74,17 @@ def cmd_run(name, tier, ids, seed=0):
                     os.remove(os.path.join(ROOT, "replay", f))
     finally:
         shutil.rmtree(d, ignore_errors=True)
+    # record which check/tier detected the change (read by tools_design_tables.py)
+    rp = os.path.join(SEEDED, name, "result.json")
+    res = json.load(open(rp)) if os.path.exists(rp) else {"detected": {}, "runs": []}
+    for pid, (rc, viol) in out.items():
+        res["runs"].append({"check": pid, "tier": tier, "seed": seed, "rc": rc, "first_violation": viol[0][:300] if viol else None})
+        if rc == 1 and viol:
+            prev = res["detected"].get(pid)
+            res["detected"][pid] = "quick" if (tier == "quick" or prev == "quick") else tier
+        elif pid not in res["detected"]:
+            res.setdefault("missed", {})[f"{pid}:{tier}"] = rc
+    json.dump(res, open(rp, "w"), indent=1)
     return out
 
 
